@@ -350,6 +350,13 @@ def mutable_attr_names(proj):
                 for e in (t.elts if isinstance(t, (ast.Tuple, ast.List)) else [t]):
                     if isinstance(e, ast.Attribute):
                         out.add(e.attr)
+                    # an ELEMENT store / in-place update through an attribute (f.data[i] += ..., fld.data[q][c] = ...):
+                    # the object the attribute holds changes although the attribute is never rebound
+                    b = e
+                    while isinstance(b, ast.Subscript):
+                        b = b.value
+                    if b is not e and isinstance(b, ast.Attribute):
+                        out.add(b.attr)
     return out
 
 
@@ -360,7 +367,7 @@ def class_level_containers(proj, ci):
     out = {}
     for c in reversed(proj.mro(ci)):
         for name, expr in c.attrs.items():
-            if isinstance(expr, (ast.Dict, ast.List, ast.Set)) or (isinstance(expr, ast.Call) and isinstance(expr.func, ast.Name) and expr.func.id in ("dict", "list", "set")):
+            if isinstance(expr, (ast.Dict, ast.List, ast.Set, ast.DictComp, ast.ListComp, ast.SetComp)) or (isinstance(expr, ast.Call) and isinstance(expr.func, ast.Name) and expr.func.id in ("dict", "list", "set", "defaultdict", "OrderedDict")):
                 out[name] = c
     return out
 
